@@ -168,8 +168,14 @@ impl<K> Policy<K> {
             return;
         }
 
-        let victim =
-            self.lru.peek_least_recent(lru::Region::Probation).unwrap();
+        let Some(victim) = self.lru.peek_least_recent(lru::Region::Probation)
+        else {
+            // There is nothing to duel against: the probation region is
+            // empty, so the main region has room for the unpinned key.
+            self.lru.move_key_to_head_of_region(unpin, lru::Region::Probation);
+
+            return;
+        };
 
         let (pinned_frequency, victim_frequency) = {
             let pinned_hash = build_hash.hash_one(unpin);
